@@ -52,6 +52,12 @@ func TestC02System(t *testing.T) {
 			kc.Pre = []kop{{Op: "put", Ns: "ns1", Name: "a", Lbl: map[string]string{"sel": "x"}}, {Op: "put", Ns: "ns1", Name: "b", Lbl: map[string]string{"sel": "x"}}}
 			kc.Between = []kop{{Op: "delete", Ns: "ns1", Name: "a"}, {Op: "put", Ns: "ns1", Name: "b", Lbl: map[string]string{"sel": "x"}}, {Op: "put", Ns: "ns1", Name: "c", Lbl: map[string]string{"sel": "x"}}}
 		}
+		if c.Index%8 == 7 {
+			// catalogue: a watch outage (nothing delivered) during which an object is deleted and another one
+			// modified, ended by 410 Gone: the informers learn both from the relist (the deletion as a tombstone)
+			kc.Pre = append(kc.Pre, kop{Op: "put", Ns: "ns1", Name: "a", Lbl: map[string]string{"sel": "x"}}, kop{Op: "put", Ns: "ns1", Name: "b", Lbl: map[string]string{"sel": "x"}})
+			kc.Post = append(kc.Post, kop{Op: "put", Ns: "ns1", Name: "a", Lbl: map[string]string{"sel": "x"}}, kop{Op: "stall-watches"}, kop{Op: "delete", Ns: "ns1", Name: "a"}, kop{Op: "put", Ns: "ns1", Name: "b", Lbl: map[string]string{"sel": "x"}}, kop{Op: "expire-watches"})
+		}
 		var steady func(sys *vlib.Sys, rec *krecord)
 		if c.Index%4 == 3 {
 			// a write lands between two snapshot reads of ONE execution: two snapshot ticks are combined into
